@@ -5,6 +5,8 @@
      fft    <N> (<re> <im>) x N
      ifft   <N> (<re> <im>) x N
      freq   <n> <d>
+     fullgrid <lead> <trail> <N> <times x N>
+     fsvalues <lead> <trail> <nf> (<kind> <p1> <p2> <p3> <fr>) x nf <N> <times x N> <L> <fvals x L>
    Output: one line of hex floats per case. *)
 let resp kind p1 p2 p3 : float -> float * float =
   match kind with
@@ -49,6 +51,18 @@ let () =
          let rec go i acc = if i = 0 then List.rev acc else (let a = nf () in let b = nf () in go (i - 1) ((a, b) :: acc)) in
          let xs = go n [] in
          out_c (if toks.(0) = "fft" then Filt.fft_l xs else Filt.ifft_l xs)
+       | "fullgrid" ->
+         let lead = nf () in let trail = nf () in let n = ni () in let times = nlist n in
+         out_r (Filt.full_times times lead trail (Filt.sig_dt times))
+       | "fsvalues" ->
+         let lead = nf () in let trail = nf () in let k = ni () in
+         let rec fs i acc = if i = 0 then List.rev acc else begin
+             let kind = ni () in let p1 = nf () in let p2 = nf () in let p3 = nf () in
+             let fr = ni () = 1 in fs (i - 1) ((resp kind p1 p2 p3, fr) :: acc) end in
+         let fl = fs k [] in
+         let n = ni () in let times = nlist n in
+         let l = ni () in let fvals = nlist l in
+         out_r (Filt.function_signal_values times lead trail fvals fl)
        | "freq" ->
          let n = ni () in let d = nf () in
          out_r (List.init n (fun k -> Filt.fftfreq n d k))
